@@ -24,6 +24,9 @@ func init() {
 			{ID: "C17.R6", Floor: 3, Run: c17r6, Text: "capacity from the same length: every make([]T, n, c) of handle/index storage with a non-constant length has c = n + e, c = n, or c = capacity(n, ·) computed from the same n (structural equality): the pool and the index are sized from the full id count, in step"},
 			{ID: "C17.R7", Floor: 4, Run: loadMustWrite, Text: "load on every path: every path of LoadEntities to a normal return writes the pool's run-state fields, World.entities and World.targetEntities"},
 			{ID: "C17.R8", Floor: 1, Run: marshalAllPaths, Text: "every return of Entity.MarshalJSON carries bytes derived from both id and generation"},
+			{ID: "C17.R9", Floor: 1, Run: dumpVerbatim, Text: "the dump copies the pool's entries verbatim (bulk append/copy/Clone of entityPool.entities): a dead entry's id field is the free-list link and must survive"},
+			{ID: "C17.R10", Floor: 1, Run: rootTablesNotEnumerated, Text: "World.archetypes (tables of relation-free nodes only) is never iterated as if it were all tables: its Len() is used only as the index of the table just added"},
+			{ID: "C17.R11", Floor: 2, Run: jsonReceiverKinds, Text: "Entity.MarshalJSON has a value receiver and UnmarshalJSON a pointer receiver (go/types): entities held by value must encode through it"},
 			{ID: "C17.R4", Floor: 2, Run: c17r4, Text: "no alias of the dump: the slices LoadEntities stores into the pool and the index derive only from make/append-to-fresh, never from a field of the parameter"},
 		},
 	})
@@ -46,6 +49,8 @@ func init() {
 			{ID: "C02.R10", Floor: 3, Run: c17r6, Text: "index growth in step with the pool (= C17.R6): every make([]T, n, c) of handle/index storage with a non-constant length has c = n + e, c = n, or c = capacity(n, ·) computed from the same n (structural equality): the pool and the index are sized from the full id count, in step"},
 			{ID: "C02.R11", Floor: 1, Run: c02r11, Text: "no bulk clear of handle storage: clear() is never applied to entityPool.entities or World.entities (slot 0 holds the sentinel that makes the zero entity dead); fixture-backed"},
 			{ID: "C02.R12", Floor: 15, Run: c10r1, Text: "no creation before validation (= C10.R1): a creation call that panics has created nothing, so alive = creations − removals also for callers that recover"},
+			{ID: "C02.R13", Floor: 1, Run: dumpVerbatim, Text: "the dump copies the pool's entries verbatim (= C17.R9): a rebuilt entry loses the free-list link and the loaded world issues one handle twice"},
+			{ID: "C02.R14", Floor: 7, Run: c01r2, Text: "alloc ⇄ index (= C01.R2): a row allocated for an entity is recorded in World.entities itself, not in a copy of the entry; a stale entry makes a later removal recycle another entity's id"},
 		},
 	})
 }
